@@ -1,13 +1,279 @@
-/- Driver for the service engine (ops whose name starts with `s`). -/
+/- Driver for the service engine (ops whose name starts with `s`).  The scripts it reads are the
+*resolved* ops printed by the harness (`!OP …`): records are abstract `Rec`s
+(`id:seq:udp4:udp6:mapped:size:passesFilter:sig`), requests are referred to by their number. -/
 import Driver.Common
+import Discv5Model.Model.Service
 namespace Discv5.Driver
+namespace SvcD
+open Discv5.KB Discv5.Svc
+
+structure SvcInst where
+  name : String
+  svc : Svc
+  /-- every request ever emitted (requests are looked up here once they are no longer active) -/
+  hist : List ActiveReq := []
 
 structure ServiceSt where
-  dummy : Unit := ()
+  insts : List SvcInst := []
+  bans : List String := []
 
-/-- One op of the service engine: full token list (op name first) → new state and reply line. -/
+def sKey (s : String) : Nat := beNat (hex! s)
+def sKeyHex (k : Nat) : String := toHex (beBytes 32 k)
+def id8 (k : Nat) : String := ((sKeyHex k).take 8).toString
+
+def bytesOf (s : String) : Bytes := if s == "-" then [] else hex! s
+
+def optNat (s : String) : Option Nat := if s == "-" then none else s.toNat?
+
+def parseRec (s : String) : Option Rec :=
+  match fields s with
+  | [id, seq, u4, u6, m, size, pf, sig] =>
+    some { id := sKey id, seq := nat! seq, udp4 := optNat u4, udp6 := optNat u6, udp6Mapped := m == "1",
+           size := nat! size, passesFilter := pf == "1", sig := nat! sig }
+  | _ => none
+
+def parseRecs (s : String) : List Rec :=
+  if s == "-" then [] else (s.splitOn ",").filterMap parseRec
+
+def parseAddr (s : String) : Addr :=
+  match s.splitOn "~" with
+  | [f, n] => { v6 := f == "6", sock := nat! n }
+  | _ => { v6 := false, sock := 0 }
+
+def showAddr (a : Addr) : String := s!"{if a.v6 then "6" else "4"}~{a.sock}"
+
+def showIp (a : Addr) : String := s!"{if a.v6 then "6" else "4"}~{a.ip}"
+
+def parseDists (s : String) (sep : String) : List Nat :=
+  if s == "-" then [] else (s.splitOn sep).map nat!
+
+def showDists (ds : List Nat) : String :=
+  if ds.isEmpty then "-" else ".".intercalate (ds.map toString)
+
+def recShort (r : Rec) : String := s!"{id8 r.id}/{r.seq}"
+
+def showRecs (rs : List Rec) : String :=
+  if rs.isEmpty then "-" else ",".intercalate (rs.map recShort)
+
+def showReqBody : ReqBody → String
+  | .ping s => s!"ping:{s}"
+  | .findNode ds => s!"findnode:{showDists ds}"
+  | .talk p q => s!"talk:{hexOrDash p}:{hexOrDash q}"
+
+def showRespBody : RespBody → String
+  | .pong s a => s!"pong:{s}:{showAddr a}"
+  | .nodes t rs => s!"nodes:{t}:{showRecs rs}:{(rs.map (·.size)).sum}"
+  | .talk p => s!"talk:{hexOrDash p}"
+
+def showEv : Ev → String
+  | .nodeInserted id r => s!"ev:inserted:{id8 id}:{match r with | some x => id8 x | none => "-"}"
+  | .discovered r => s!"ev:discovered:{recShort r}"
+  | .sessionEstablished r a => s!"ev:established:{recShort r}@{showAddr a}"
+  | .talkRequest rid peer _ p b => s!"ev:talkreq:{hexOrDash rid}:{id8 peer}:{hexOrDash p}:{hexOrDash b}"
+  | .socketUpdated a => s!"ev:socket:{showAddr a}"
+  | .unverifiableEnr id => s!"ev:unverifiable:{id8 id}"
+
+def showCb : CbRes → String
+  | .nodes rs => s!"nodes:{showRecs rs}"
+  | .pong s a => s!"pong:{s}:{showAddr a}"
+  | .talk p => s!"talk:{hexOrDash p}"
+  | .err => "err"
+
+def insertStr (x : String) : List String → List String
+  | [] => [x]
+  | y :: ys => if x < y then x :: y :: ys else if x == y then y :: ys else y :: insertStr x ys
+
+def sortDedupStr (l : List String) : List String := l.foldr insertStr []
+
+/-- Canonical reply items: handler-channel messages in order, the empty TALKRESPs of request
+objects the (service engine's) application drops at once, events, new bans (sorted), callbacks. -/
+def showOuts (outs : List Out) : List String × List String :=
+  let chan := outs.filterMap fun
+    | .request id peer a b => some s!"req:r{id}:{id8 peer}@{showAddr a}:{showReqBody b}"
+    | .response peer a rid b => some s!"resp:{id8 peer}@{showAddr a}:{hexOrDash rid}:{showRespBody b}"
+    | .whoAreYou peer a k => some s!"way:{id8 peer}@{showAddr a}:{match k with | some r => recShort r | none => "-"}"
+    | _ => none
+  let talkDrops := outs.filterMap fun
+    | .event (.talkRequest rid peer a _ _) =>
+      match ({ rid := rid, peer := peer, addr := a } : TalkReq).drop true with
+      | [.response p a' r b] => some s!"resp:{id8 p}@{showAddr a'}:{hexOrDash r}:{showRespBody b}"
+      | _ => none
+    | _ => none
+  let evs := outs.filterMap fun
+    | .event e => some (showEv e)
+    | _ => none
+  let bans := sortDedupStr (outs.flatMap fun
+    | .ban peer a => [s!"ban:{id8 peer}", s!"banip:{showIp a}"]
+    | _ => [])
+  let cbs := outs.filterMap fun
+    | .callback id r => some s!"cb:r{id}:{showCb r}"
+    | _ => none
+  (chan ++ talkDrops ++ evs ++ bans ++ cbs, bans)
+
+def showNodeShort (full : Bool) (n : Node Rec) : String :=
+  s!"{if full then sKeyHex n.key else id8 n.key}/{if n.st.conn then "c" else "d"}/{if n.st.incoming then "i" else "o"}/{n.value.seq}"
+
+def digest (full : Bool) (t : Table Rec) : String :=
+  let parts := (List.range numBuckets).filterMap fun i =>
+    let b := t.bucket i
+    if b.nodes.isEmpty && b.pending.isNone then none else
+    let p := match b.pending with
+      | some p => showNodeShort full p.node
+      | none => "-"
+    some s!"{i}:[{",".intercalate (b.nodes.map (showNodeShort full))}]p={p}"
+  if parts.isEmpty then "empty" else ";".intercalate parts
+
+def getInst (st : ServiceSt) (x : String) : Option SvcInst := st.insts.find? (·.name == x)
+
+def setInst (st : ServiceSt) (i : SvcInst) : ServiceSt :=
+  { st with insts := (st.insts.filter (·.name != i.name)) ++ [i] }
+
+def histOf (outs : List Out) (s : Svc) : List ActiveReq :=
+  outs.filterMap fun
+    | .request id _ _ _ => s.active.find? (fun a => a.id == id)
+    | _ => none
+
+/-- Applies the trailing tokens of a resolved op: `q=peer,peer` (requests the query pool emitted),
+`qfin` (query finished). -/
+def applySuffix (s : Svc) (sfx : List String) : Svc × List Out :=
+  sfx.foldl (fun (acc : Svc × List Out) tok =>
+    if tok.startsWith "q=" then
+      ((tok.drop 2).toString.splitOn ",").foldl (fun (a : Svc × List Out) p =>
+        let (s1, o) := a.1.step {} (.queryEmit (sKey p))
+        (s1, a.2 ++ o)) acc
+    else if tok == "qfin" then ((acc.1.step {} .queryFinished).1, acc.2)
+    else acc) (s, [])
+
+def oracleOf (s : Svc) (sfx : List String) : Oracle :=
+  sfx.foldl (fun (o : Oracle) tok =>
+    if tok.startsWith "local=" then
+      match parseRec (tok.drop 6).toString with
+      | some r =>
+        let a : Addr := if r.udp4 != s.localRec.udp4 then { v6 := false, sock := r.udp4.getD 0 }
+                        else { v6 := true, sock := r.udp6.getD 0 }
+        { o with newLocal := some (r, a) }
+      | none => o
+    else if tok == "rm=1" then { o with requireMore := true }
+    else if tok == "nc=1" then { o with countable := false }
+    else o) {}
+
+/-- Runs one input on instance `x` (plus the suffix), renders the reply. -/
+def runOn (st : ServiceSt) (x : String) (inp : Svc → Oracle → Svc × List Out) (sfx : List String)
+    (extra : Option String) : ServiceSt × String :=
+  match getInst st x with
+  | none => (st, "noop")
+  | some i =>
+    let (s1, o1) := inp i.svc (oracleOf i.svc sfx)
+    let (s2, o2) := applySuffix s1 sfx
+    let outs := o1 ++ o2
+    let (items, bans) := showOuts outs
+    let items := match extra with | some e => e :: items | none => items
+    let i' := { i with svc := s2, hist := i.hist ++ histOf o1 s1 ++ histOf o2 s2 }
+    let st' := { setInst st i' with bans := sortDedupStr (st.bans ++ bans) }
+    (st', s!"{if items.isEmpty then "-" else " ".intercalate items} | T={digest false s2.table}")
+
+def parseMode (s : String) : IpMode := if s == "ip6" then .ip6 else if s == "dual" then .dual else .ip4
+
+def parseReqBody : List String → Option ReqBody
+  | ["ping", s] => some (.ping (nat! s))
+  | ["findnode", ds] => some (.findNode (parseDists ds ","))
+  | ["talk", p, q] => some (.talk (bytesOf p) (bytesOf q))
+  | _ => none
+
+def reqNo (s : String) : Nat := nat! (s.drop 1).toString
+
 def serviceStep (st : ServiceSt) (toks : List String) : ServiceSt × String :=
   match toks with
+  | ["snop"] => (st, "noop")
+  | ["snew", x, rec, mode, maxn, maxin, enrupd] =>
+    match parseRec rec with
+    | none => (st, "noop")
+    | some r =>
+      let cfg : Svc.Cfg := { ipMode := parseMode mode, maxNodesResponse := nat! maxn, enrUpdate := enrupd == "1",
+                             kb := kbCfg (nat! maxin) 60000 }
+      (setInst st { name := x, svc := Svc.init cfg r }, "ok")
+  | ["sadd", x, rec] =>
+    match parseRec rec, getInst st x with
+    | some r, some i =>
+      let res := (i.svc.addEnr r).2
+      runOn st x (fun s _ => s.step {} (.addEnr r)) [] (some (if res == .ok then "ok" else "err:add"))
+    | _, _ => (st, "noop")
+  | ["sest", x, rec, addr, dir] =>
+    match parseRec rec with
+    | some r => runOn st x (fun s o => s.step o (.established r (parseAddr addr) (dir == "i"))) [] none
+    | none => (st, "noop")
+  | ["srm", x, id] =>
+    match getInst st x with
+    | some i =>
+      let res := (i.svc.removeNode (sKey id)).2
+      runOn st x (fun s _ => s.step {} (.removeNode (sKey id))) [] (some s!"removed={res}")
+    | none => (st, "noop")
+  | ["sunverifiable", x, id] => runOn st x (fun s o => s.step o (.unverifiable (sKey id))) [] none
+  | "sreq" :: x :: peer :: addr :: rid :: body =>
+    match parseReqBody body with
+    | some b => runOn st x (fun s o => s.step o (.request (sKey peer) (parseAddr addr) (bytesOf rid) b)) [] none
+    | none => (st, "noop")
+  | "sresp" :: x :: rk :: peer :: addr :: "nodes" :: total :: recs :: sfx =>
+    runOn st x (fun s o => s.step o (.response (sKey peer) (parseAddr addr) (reqNo rk)
+      (.nodes (nat! total) (parseRecs recs)))) sfx none
+  | "sresp" :: x :: rk :: peer :: addr :: "pong" :: seq :: obs :: sfx =>
+    runOn st x (fun s o => s.step o (.response (sKey peer) (parseAddr addr) (reqNo rk)
+      (.pong (nat! seq) (parseAddr obs)))) sfx none
+  | "sresp" :: x :: rk :: peer :: addr :: "talk" :: payload :: sfx =>
+    runOn st x (fun s o => s.step o (.response (sKey peer) (parseAddr addr) (reqNo rk)
+      (.talk (bytesOf payload)))) sfx none
+  | "sfail" :: x :: rk :: sfx => runOn st x (fun s o => s.step o (.requestFailed (reqNo rk))) sfx none
+  | "squery" :: x :: target :: sfx => runOn st x (fun s o => s.step o (.startQuery (sKey target))) sfx none
+  | ["sapi", x, "ping", rec] =>
+    match parseRec rec with
+    | some r => runOn st x (fun s o => s.step o (.apiPing r)) [] none
+    | none => (st, "noop")
+  | ["sapi", x, "findnode", rec, ds] =>
+    match parseRec rec with
+    | some r => runOn st x (fun s o => s.step o (.apiFindNode r (parseDists ds ","))) [] none
+    | none => (st, "noop")
+  | ["sapi", x, "talk", rec, p, q] =>
+    match parseRec rec with
+    | some r => runOn st x (fun s o => s.step o (.apiTalk r (bytesOf p) (bytesOf q))) [] none
+    | none => (st, "noop")
+  | "shonest" :: x :: rk :: y :: from_ :: rid :: sfx =>
+    match getInst st x, getInst st y with
+    | some ix, some iy =>
+      match ix.hist.find? (fun a => a.id == reqNo rk) with
+      | some req =>
+        match req.body with
+        | .findNode ds =>
+          -- the honest responder serves the request …
+          let (sy, oy) := iy.svc.step {} (.request ix.svc.localRec.id (parseAddr from_) (bytesOf rid) (.findNode ds))
+          let packets := oy.filterMap fun
+            | .response _ _ _ (.nodes t rs) => some (t, rs)
+            | _ => none
+          let st1 := setInst st { iy with svc := sy }
+          -- … and its packets are fed back one by one
+          runOn st1 x (fun s o =>
+            packets.foldl (fun (acc : Svc × List Out) p =>
+              let (s1, o1) := acc.1.step o (.response req.peer req.addr req.id (.nodes p.1 p.2))
+              (s1, acc.2 ++ o1)) (s, [])) sfx (some s!"pk={packets.length}")
+        | _ => (st, "noop")
+      | none => (st, "noop")
+    | _, _ => (st, "noop")
+  | ["stable", x] =>
+    match getInst st x with
+    | some i => (st, digest true i.svc.table)
+    | none => (st, "noop")
+  | ["slocal", x] =>
+    match getInst st x with
+    | some i =>
+      let r := i.svc.localRec
+      let sh (v6 : Bool) (o : Option Nat) := match o with | some s => showAddr { v6 := v6, sock := s } | none => "-"
+      (st, s!"{sKeyHex r.id}:{r.seq}:{sh false r.udp4}:{sh true r.udp6}")
+    | none => (st, "noop")
+  | ["sbans"] => (st, if st.bans.isEmpty then "-" else " ".intercalate st.bans)
   | _ => (st, "bad-op")
+
+end SvcD
+
+abbrev ServiceSt := SvcD.ServiceSt
+def serviceStep : ServiceSt → List String → ServiceSt × String := SvcD.serviceStep
 
 end Discv5.Driver
